@@ -113,6 +113,39 @@ def run(prog, check):
     # ---- R4 --------------------------------------------------------------------------------------
     copies = [n for n in ast.walk(ss.node) if isinstance(n, ast.Assign) and isinstance(n.targets[0], ast.Name)
               and isinstance(n.value, ast.Call) and call_name(n.value) in ('deepcopy', '_GetCopy', 'copy')]
+    if not copies and ss.cls is not None:
+        # a working solver built by hand: X = <own class>(...) followed by X.<attr> = ... ; it stands for a copy only
+        # if every data member the constructor creates is carried over from self
+        built = [n for n in ast.walk(ss.node) if isinstance(n, ast.Assign) and isinstance(n.targets[0], ast.Name)
+                 and isinstance(n.value, ast.Call) and call_name(n.value) == ss.cls.name]
+        if len(built) == 1:
+            xn = built[0].targets[0].id
+            init = prog.resolve_method(ss.cls, '__init__')
+            members = set()
+            for n in ast.walk(init.node):
+                if isinstance(n, ast.Assign):
+                    for t in n.targets:
+                        if isinstance(t, ast.Attribute) and isinstance(t.value, ast.Name) and t.value.id == 'self':
+                            members.add(t.attr)
+            carried = set()
+            for n in ast.walk(ss.node):
+                if isinstance(n, ast.Assign):
+                    for t in n.targets:
+                        if isinstance(t, ast.Attribute) and isinstance(t.value, ast.Name) and t.value.id == xn and any(
+                                isinstance(x, ast.Attribute) and isinstance(x.value, ast.Name) and x.value.id == 'self' and x.attr == t.attr
+                                for x in ast.walk(n.value)):
+                            carried.add(t.attr)
+                if isinstance(n, ast.For) and isinstance(n.iter, (ast.Tuple, ast.List)) and all(isinstance(e, ast.Constant) for e in n.iter.elts) \
+                        and any(isinstance(c, ast.Call) and call_name(c) == 'setattr' and c.args and unparse(c.args[0]) == xn for c in ast.walk(n)) \
+                        and any(isinstance(c, ast.Call) and call_name(c) == 'getattr' and c.args and unparse(c.args[0]) == 'self' for c in ast.walk(n)):
+                    carried.update(e.value for e in n.iter.elts)
+            missing = sorted(members - carried)
+            check.ob('C15.R2', '%s::works-on-deep-copy' % ss.key, not missing, '%s:%d' % (ss.module.rel, built[0].lineno),
+                     'the hand-built working solver carries every data member of self' if not missing else
+                     'the working solver is rebuilt, not copied: %s are not taken from self (the search then starts from parsed values, '
+                     'not from the state of this solver)' % missing,
+                     'exogenous paths or k=0 values edited on the solver before the search')
+            copies = built
     if len(copies) != 1:
         raise AnalysisError('cannot identify the working copy in ' + ss.qualname)
     copy_name = copies[0].targets[0].id
@@ -129,9 +162,10 @@ def run(prog, check):
             deep = bool(rets) and all(isinstance(r.value, ast.Call) and call_name(r.value) == 'deepcopy' and r.value.args
                                       and unparse(r.value.args[0]) == 'self' for r in rets)
             how = '%s -> %s' % (how, [unparse(r.value) for r in rets])
-    check.ob('C15.R2', '%s::works-on-deep-copy' % ss.key, deep, '%s:%d' % (ss.module.rel, copies[0].lineno),
-             'working solver is a deep copy (%s)' % how if deep else 'working solver is not a deep copy of self (%s)' % how,
-             'any search: the parser / exogenous lists of the original solver would be overwritten')
+    if call_name(cp) != (ss.cls.name if ss.cls else ''):
+        check.ob('C15.R2', '%s::works-on-deep-copy' % ss.key, deep, '%s:%d' % (ss.module.rel, copies[0].lineno),
+                 'working solver is a deep copy (%s)' % how if deep else 'working solver is not a deep copy of self (%s)' % how,
+                 'any search: the parser / exogenous lists of the original solver would be overwritten')
     series_loops = [n for n in ast.walk(ss.node) if isinstance(n, ast.For) and any(
         isinstance(x, ast.Subscript) and isinstance(x.slice, ast.UnaryOp) for x in ast.walk(n)) and any(
         isinstance(x, ast.Compare) and any(isinstance(y, ast.Attribute) and 'Toler' in y.attr
@@ -274,7 +308,9 @@ def run(prog, check):
     check.ob('C15.R3', '%s::flagged-variable-not-installed' % ss.key, not both and bool(ends), '%s:%d' % (ss.module.rel, loop.lineno),
              'a variable recorded as not converged is never installed as k=0 value' if not both else
              'a variable can be recorded as not converged and still be installed (lines %s)' % trace(seen, both[0], g), 'a drifting variable')
-    undecided = [k for k in ends if k[2][2] is not None and (k[2][0] + k[2][1]) != 1]
+    # (a two-phase search - validate every variable first, install afterwards - has no install in this loop)
+    loop_installs = any(is_install(n_) and loop in n_.loops for n_ in g.nodes)
+    undecided = [k for k in ends if k[2][2] is not None and ((k[2][0] + k[2][1]) > 1 or (loop_installs and (k[2][0] + k[2][1]) == 0))]
     check.ob('C15.R3', '%s::flagged-variable-recorded' % ss.key, not undecided and bool(ends), '%s:%d' % (ss.module.rel, loop.lineno),
              'every tested variable is either installed or recorded as not converged, exactly once' if not undecided else
              'a tested variable can be neither installed nor recorded (or both / twice): lines %s' % trace(seen, undecided[0], g),
@@ -335,6 +371,18 @@ def run(prog, check):
         check.ob('C15.R5', '%s::installed-value-is-last-point' % ss.key, bool(v_ok and key_ok), '%s:%d' % (ss.module.rel, n.line),
                  'the value installed for a variable is the last point of its own searched series' if (v_ok and key_ok) else
                  'the value installed is `%s` for key `%s`' % (unparse(n.ast.value), unparse(n.ast.targets[0])), 'any accepted search')
+    # k=0 values of an existing solution are installed by the search only (anything else installs untested values)
+    for fo in (ss.cls.methods.values() if ss.cls else []):
+        if fo.name in (ss_raw.name, '__init__') or fo.key in getattr(ss, 'inlined', ()):
+            continue
+        for n in ast.walk(fo.node):
+            if isinstance(n, ast.Assign) and isinstance(n.targets[0], ast.Subscript) and isinstance(n.targets[0].value, ast.Subscript) and \
+                    'TimeSeries' in unparse(n.targets[0].value.value) and unparse(n.targets[0]).startswith('self.') and \
+                    lin_eq(linform(n.targets[0].slice) if not isinstance(n.targets[0].slice, ast.Slice) else None, {'': 0}):
+                check.saw(fo)
+                check.ob('C15.R5', '%s::k0-install-outside-search' % fo.key, False, '%s:%d' % (fo.module.rel, n.lineno),
+                         'k=0 values are written into the solved series outside the steady-state search: they are accepted without the '
+                         'steadiness test (stale when tolerance, functions or equations changed)', 'a second solve after tightening the tolerance')
     check.ob('C15.R5', '%s::install-present' % ss.key, bool(all_install), ss.where,
              'accepted values are written to TimeSeries[var][0]' if all_install else 'nothing is installed after a successful search', '')
     # convergence error => value error
